@@ -206,7 +206,7 @@ def oracle(pid, ops, root, xpaths):
         if pid in ("C04", "C11"):
             pass
     seen_leaves = set()
-    leaves = [n.k for n in r.items() if isinstance(n, N.Leaf)] if err is None or True else []
+    leaves = [i for i, k in enumerate(kinds) if k[0] == 'L']      # wf: every node is reachable (not taken from items())
     for idx, e in enumerate(entries):
         try:
             tr = graphs.execute_trace(r, e.path)
@@ -238,10 +238,13 @@ def oracle(pid, ops, root, xpaths):
             if not new:
                 out.append(("redundant-path", "entry %d reaches no leaf that an earlier path had not reached" % idx, {"entry": idx}))
         seen_leaves.update(n for n in tr if kinds[n][0] == 'L')
-    if pid == "C05" and err is None:
+    if pid == "C05" and (err is None or prod or acyc):
+        # generation ends on a productive or acyclic graph (C11); when it ends with an exception instead, the paths
+        # yielded before it are all there is
         miss = sorted(set(leaves) - seen_leaves)
         if miss:
-            out.append(("leaf-not-covered", "leaves %s are applied by no generated path" % miss, {}))
+            out.append(("leaf-not-covered", "leaves %s are applied by no generated path%s" % (
+                miss, "" if err is None else " (generate_paths() raises %s after %d entries)" % (graphs.err_str(err), len(entries))), {}))
         if len(entries) > len(leaves):
             out.append(("more-paths-than-leaves", "%d paths for %d leaves" % (len(entries), len(leaves)), {}))
     if pid == "C04":
@@ -270,6 +273,8 @@ def run(pid, tier):
 
 
 def explore(ck, pid, tier):
+    # C05: the leaves are of a class with value semantics (equal payload = equal leaf); the library must not mix them up
+    graphs.VALUE_LEAVES = pid == "C05"
     progs, rng = _programs(ck, tier, ck.seed)
     cases = []
     for ops, root in progs:
@@ -365,6 +370,7 @@ def explore(ck, pid, tier):
 
 def replay(pid, path):
     d = json.load(open(path))
+    graphs.VALUE_LEAVES = pid == "C05"
     ops = [tuple(o) for o in d["ops"]]
     root = d.get("root", 0)
     res = fences_env.run_with_big_stack(lambda: oracle(pid, ops, root, [d["path"]] if "path" in d else []), reclimit=RECLIMIT)
